@@ -102,4 +102,19 @@ Section D.
     intros Hb Hc Hs Hr E N Hf. destruct (build_spec _ _ _ Hb) as (Hd & Hn & Hl).
     eapply local_chain_rule; try eassumption; [rewrite Hn; exact Hs|rewrite Hl; exact E|reflexivity].
   Qed.
+
+  (* the leaf hypotheses of the gradient pipeline (P_LlhPipeGrad.pipeline_p_derive) are supplied by
+     the layout: a weight W*Y(local parameter) or a table ratio c*phi(local parameter), as a function
+     of the r-th floating value, is differentiable with exactly the entry the code selects *)
+  Theorem layout_leaf n ds (m : @mapper R) vec (rec : @recarray R) s name (r : nat) (f : R -> R) df (c : R) pre d post :
+    build n ds = Ok m -> create_src_params_recarray m vec = Ok rec -> (s < n)%nat -> (r < length vec)%nat ->
+    ds = pre ++ d :: post -> nm s d = Some name ->
+    is_derive f (cellval m vec s name) df ->
+    is_derive (fun t => (c * f (cellval m (set_nth vec r t) s name))%R) (nth r vec 0%R)
+              (c * (if lk_is_local (Z.of_nat r) (cellkey m vec s name) then df else 0))%R.
+  Proof.
+    intros Hb Hc Hs Hr E N Hf.
+    apply (is_derive_scal (fun t => f (cellval m (set_nth vec r t) s name)) (nth r vec 0%R) c).
+    eapply layout_chain; eassumption.
+  Qed.
 End D.
